@@ -29,4 +29,4 @@ if __name__ == '__main__':
     for rid in ids:
         if not os.path.exists(os.path.join(V, 'refactors', rid, 'refactor.diff')): continue
         r = evaluate(rid, 'quick')
-        print('%-8s applies=%s tests=[%s] alarms=%s' % (rid, r.get('applies'), r.get('tests', ''), r.get('alarms')))
+        print('%-8s applies=%s tests=[%s] alarms=%s' % (rid, r.get('applies'), r.get('tests', ''), r.get('alarms')), flush=True)
